@@ -90,6 +90,10 @@ func (c01) Exec(ctx *core.Ctx, cs *core.Case) {
 				entry = "(*Url).Parse"
 			}
 		}
+		if len(input)%8 == 5 {
+			// the same call twice, judging the second result (memo fields, one-entry caches)
+			_, _, _ = parseImpl(ctx, nil, input, base, hasBase, e == 1)
+		}
 		u, err, pan := parseImpl(ctx, nil, input, base, hasBase, e == 1)
 		if pan != nil {
 			ctx.Nontrivial()
